@@ -13,13 +13,13 @@ def add(pid, technique, text, note, ref=None):
 add("C01", "Hypothesis-generated games and RuleBasedStateMachine league histories vs independent mpmath reference model (differential oracle with C17-derived intervals)",
     "Exploration: thousands of generated (model, configuration, game, outcome encoding, per-call option) cases per run, a dense uniform sweep of the standardised two-team gap (incl. the neighbourhoods where erfc / exp / the epsilon guards change regime) and lobbies beyond 8 teams, each compared per player with a 50-digit evaluation of the published update; league histories (rating objects fed back through one model, the returned list rated again, predictions interleaved) compared with the reference after every game; shrunk failures become replay files. Right level because the property quantifies over a continuous input space with an exact executable oracle.",
     "Trusts vf/refmodel.py as a transcription of Weng & Lin (2011) and mpmath's ncdf/npdf; TM margins outside [1e-8,1e-2] excluded (counted); TM-part doubled c_iq is the open known finding tmp-ciq-doubled.")
-add("C03", "Hypothesis metamorphic test: several encodings of one weak order must give bit-identical results; symmetry anchor for mixed-type ties",
+add("C03", "Hypothesis metamorphic test: several encodings of one weak order must give bit-identical results (also with ONE caller-kept list object rated twice and then negated); RuleBasedStateMachine twin leagues (canonical ranks vs drawn encoding) identical after every game; symmetry anchor for mixed-type ties",
     "Exploration over generated games x weak orders x encodings (int/float/mixed/bool/huge/relatively-close floats/small ints/negative/scores/omitted) with an exact (bitwise) metamorphic oracle; history-dependent failures are saved with the cases that preceded them.",
     "Rank values restricted to finite int/float/bool; 'identical' read as bit-identical.")
 add("C14", "Hypothesis stateful machine (history independence), generated line-level thread schedules under a sys.settrace scheduler, differential across fresh child interpreters with different PYTHONHASHSEED and call order",
     "Exploration of call histories (incl. earlier out-of-range calls), identities (names, ids, aliasing, caller-modified return values), harness-owned interleavings (<= 6 preemptions, <= 4 threads, source-line and bytecode granularity, preemptions right after writes to the shared model or to module-level containers, also at cold start in fresh interpreters), hash seeds and call orders in fresh processes; every result compared bit for bit with the same call on a fresh model / in another process.",
     "Bounded preemptions (<= 6 drawn + <= 4 write-triggered) and threads (<= 4); a quarter of the schedules at bytecode granularity; free-running thread stress is only additional.")
-add("C15", "Hypothesis metamorphic/differential test: per-call option vs model constructed with that option, bit-identical",
+add("C15", "Hypothesis metamorphic/differential test: per-call option vs model constructed with that option, bit-identical, on single calls and along RuleBasedStateMachine twin-league histories (one long-lived model with per-call options vs newly constructed models)",
     "Exploration over generated games and option values (0, 0.0, 1e-300, ints, default, large; True/False) with fresh model and ratings on each side; options also passed positionally (rate and constructor) and compared with the keyword form.",
     "'Returns what ... returns' read as bit-identical (mu, sigma).")
 add("C17", "Hypothesis-generated (x, t) sweep + exhaustive +-64-ulp walks at every branch threshold vs exact 50-digit mpmath values",
@@ -35,7 +35,7 @@ add("C04", "Hypothesis metamorphic test with exhaustive n! team permutations (n<
 add("C05", "Hypothesis metamorphic/sign-invariant tests over one game rated under several outcomes (win/draw/loss, place exchange, identical teams); clause (a) also after every game of RuleBasedStateMachine league histories",
     "Exploration: four clauses (first/last place and proportionality; win/draw/loss ordering; exchange with a better-placed team; identical teams ordered by place) with only a rounding floor as tolerance; half of the cases are constructed 5-9 sigma mismatches.",
     "'Identical teams' reading as in DESIGN.md C05; strictness asserted only where the expected gap exceeds 1000x the rounding floor.")
-add("C06", "Hypothesis single-call invariants + RuleBasedStateMachine league histories (ratings fed back) + 2000-game long runs",
+add("C06", "Hypothesis single-call invariants + two RuleBasedStateMachine league histories (ratings fed back; returned or passed-in objects kept, returned list rated again, predictions interleaved) + 2000-game long runs",
     "Exploration of inputs, configurations and histories: invariant sigma finite, >0, <= sqrt(prior^2+tau^2), <= prior under limit_sigma after every call and along every generated league history.",
     "Players leaving the valid input domain are retired from a history; history gammas bounded by 1.")
 add("C07", "Hypothesis invariant test: precision-weighted sum of mu changes vs a tolerance relative to the summands' magnitude, on single calls and after every game of RuleBasedStateMachine league histories",
@@ -65,7 +65,7 @@ add("C16", "Hypothesis metamorphic tests: rescaled and shifted copies of one gam
 add("C18", "Hypothesis-generated rating pairs (constructed equal ordinals) + exhaustive operator x operand-kind x side grid + RuleBasedStateMachine over ratings that change between comparisons",
     "Exploration of value pairs with exact oracles (is-identity of booleans), exhaustive enumeration of the foreign-operand grid inside each case, and leaderboard histories (compare, sort, update by assignment / rate(), compare again).",
     "Finite mu/sigma only.")
-add("C19", "Differential testing across the five model classes (predictions, C13 verdicts, rating-object behaviour, BT-part vs BT-full) + exhaustive signature comparison",
+add("C19", "Differential testing across the five model classes (predictions, C13 verdicts, rating-object behaviour, BT-part vs BT-full on single games and along RuleBasedStateMachine twin-league histories) + exhaustive signature comparison",
     "Exploration of generated inputs pushed through all five copies and compared bit for bit; the public surface comparison is exhaustive.",
     "Class-specific names normalised before comparing signatures/reprs.")
 add("C20", "Hypothesis construction/copy tests + RuleBasedStateMachine twin leagues (one restored from stored values between games)",
